@@ -150,7 +150,16 @@ const (
 	c15FinEOF      = 1 // Read -> (0, io.EOF), then Close()
 	c15FinWait     = 2 // let (virtual) time pass beyond the retry wait, collect, then Close()
 	c15FinCloseErr = 3 // Close() whose underlying Close fails
+	// ending modes of the read side: {error in a call of its own | error together with the last chunk} x
+	// {io.EOF | another non-timeout error}; c15FinEOF is (own call, io.EOF)
+	c15FinEOFData = 4 // the script's last call, a Read, returns its bytes TOGETHER WITH io.EOF (as crypto/tls does); then Close()
+	c15FinErr     = 5 // Read -> (0, connection reset), then Close()
+	c15FinErrData = 6 // the script's last call, a Read, returns its bytes together with "connection reset"; then Close()
 )
+
+func c15FinName(fin int) string {
+	return [...]string{"close", "eof-in-own-call", "wait", "close-fails", "eof-with-last-chunk", "error-in-own-call", "error-with-last-chunk"}[fin]
+}
 
 type c15Result struct {
 	Panic      string // function (+ line offset in it) of package tracer that raised the first panic, "" if none
@@ -316,12 +325,16 @@ func c15Exec(isServer bool, steps []c15Step, fin int) (res c15Result) {
 	}
 	if alive {
 		switch fin {
-		case c15FinClose:
+		case c15FinClose, c15FinEOFData, c15FinErrData: // (the error of the last two is part of the steps)
 			doClose(nil)
 		case c15FinCloseErr:
 			doClose(c15ErrClose)
 		case c15FinEOF:
 			if doRead(len(steps), nil, io.EOF) {
+				doClose(nil)
+			}
+		case c15FinErr:
+			if doRead(len(steps), nil, c15ErrOther) {
 				doClose(nil)
 			}
 		case c15FinWait:
@@ -365,8 +378,10 @@ type c15Item struct {
 	Data      []byte
 	Code      http2.ErrCode
 	LastID    uint32
-	Opens     bool // H that opens a stream
-	Late      bool // frame of the response direction that arrives after the stream was reset by the client / dropped by GOAWAY
+	Opens     bool   // H that opens a stream
+	Late      bool   // frame of the response direction that arrives after the stream was reset by the client / dropped by GOAWAY
+	HasTab    bool   // S: the frame also carries SETTINGS_HEADER_TABLE_SIZE = TabSize
+	TabSize   uint32 // (advertised by the decoder of the OTHER direction's header blocks)
 }
 
 func (it c15Item) String() string {
@@ -393,6 +408,9 @@ func (it c15Item) String() string {
 	if it.Kind == 'R' || it.Kind == 'G' {
 		s += fmt.Sprintf("/code=%d", uint32(it.Code))
 	}
+	if it.Kind == 'S' && it.HasTab {
+		s += fmt.Sprintf("/header-table-size=%d", it.TabSize)
+	}
 	return s
 }
 
@@ -410,13 +428,78 @@ type c15DirEnc struct {
 	fbuf    bytes.Buffer
 	fr      *http2.Framer
 	pending [][]byte // fragments of the open header block still to be sent in CONTINUATION frames
+
+	sched        *c15TableSched // HPACK table-size history of this direction, nil = none
+	blocks       int            // header blocks encoded so far
+	limit        uint32         // table size the peer allows (4096 until its SETTINGS say otherwise)
+	updates      int            // header blocks that started with a dynamic-table-size update
+	updatesAbove int            // ... with an update to more than the 4096 bytes an endpoint starts with
+	updateSplit  int            // ... whose update instruction(s) did not fit into the HEADERS frame (continued in CONTINUATION)
 }
 
-func c15NewDirEnc() *c15DirEnc {
-	e := &c15DirEnc{}
+func c15NewDirEnc() *c15DirEnc { return c15NewDirEncSched(nil) }
+
+func c15NewDirEncSched(sched *c15TableSched) *c15DirEnc {
+	e := &c15DirEnc{sched: sched, limit: 4096}
 	e.henc = hpack.NewEncoder(&e.hbuf)
 	e.fr = http2.NewFramer(&e.fbuf, nil)
+	if sched != nil && sched.Advertise >= 0 && sched.LateSettings < 0 {
+		// the peer's SETTINGS of the connection prologue (acknowledged there) took effect before the first block
+		e.allow(uint32(sched.Advertise))
+	}
 	return e
+}
+
+// allow: the peer's SETTINGS_HEADER_TABLE_SIZE has been received and acknowledged.  An encoder
+// whose table is larger must shrink it (and says so at the start of its next block).
+func (e *c15DirEnc) allow(v uint32) {
+	e.limit = v
+	e.henc.SetMaxDynamicTableSizeLimit(v)
+}
+
+// tableOps applies what the schedule says for the header block that is about to be encoded.
+func (e *c15DirEnc) tableOps() {
+	if e.sched == nil {
+		return
+	}
+	if e.sched.Advertise >= 0 && e.sched.LateSettings == e.blocks {
+		e.allow(uint32(e.sched.Advertise))
+	}
+	for _, op := range e.sched.Ops {
+		if op.Block != e.blocks {
+			continue
+		}
+		for _, size := range op.Sizes {
+			if size > e.limit {
+				panic(fmt.Sprintf("c15: schedule %s sets the table size to %d, the peer allows %d", e.sched.Name, size, e.limit))
+			}
+			e.henc.SetMaxDynamicTableSize(size)
+		}
+	}
+}
+
+// c15SizeUpdates parses the dynamic-table-size update instructions (RFC 7541 section 6.3: 001xxxxx,
+// 5-bit prefix integer) a header block starts with: their total length and the largest size announced.
+func c15SizeUpdates(block []byte) (n int, max uint64, count int) {
+	for n < len(block) && block[n]&0xE0 == 0x20 {
+		v := uint64(block[n] & 0x1F)
+		n++
+		if v == 0x1F {
+			for shift := uint(0); n < len(block); shift += 7 {
+				b := block[n]
+				n++
+				v += uint64(b&0x7F) << shift
+				if b&0x80 == 0 {
+					break
+				}
+			}
+		}
+		if v > max {
+			max = v
+		}
+		count++
+	}
+	return n, max, count
 }
 
 func (e *c15DirEnc) encode(it *c15Item) []byte {
@@ -426,13 +509,19 @@ func (e *c15DirEnc) encode(it *c15Item) []byte {
 	case 'P':
 		return []byte(clientPreface)
 	case 'S':
-		err = e.fr.WriteSettings(http2.Setting{ID: http2.SettingInitialWindowSize, Val: 65535})
+		st := []http2.Setting{{ID: http2.SettingInitialWindowSize, Val: 65535}}
+		if it.HasTab {
+			st = append(st, http2.Setting{ID: http2.SettingHeaderTableSize, Val: it.TabSize})
+		}
+		err = e.fr.WriteSettings(st...)
 	case 'A':
 		err = e.fr.WriteSettingsAck()
 	case 'W':
 		err = e.fr.WriteWindowUpdate(it.Stream, 1000)
 	case 'H':
 		e.hbuf.Reset()
+		e.tableOps()
+		e.blocks++
 		for _, f := range it.Fields {
 			if werr := e.henc.WriteField(f); werr != nil {
 				panic(werr)
@@ -440,6 +529,13 @@ func (e *c15DirEnc) encode(it *c15Item) []byte {
 		}
 		block := append([]byte(nil), e.hbuf.Bytes()...)
 		first := block
+		updLen, updMax, updCount := c15SizeUpdates(block)
+		if updCount > 0 {
+			e.updates++
+			if updMax > 4096 {
+				e.updatesAbove++
+			}
+		}
 		if it.Split {
 			// n fragments of (nearly) equal size: HEADERS carries the first, one
 			// CONTINUATION each of the others; cuts fall anywhere, also inside a field
@@ -455,6 +551,9 @@ func (e *c15DirEnc) encode(it *c15Item) []byte {
 				e.pending = append(e.pending, block[len(block)*i/n:len(block)*(i+1)/n])
 			}
 			first = block[:len(block)/n]
+			if updLen > len(first) {
+				e.updateSplit++
+			}
 		}
 		err = e.fr.WriteHeaders(http2.HeadersFrameParam{
 			StreamID: it.Stream, BlockFragment: first, EndStream: it.EndStream, EndHeaders: !it.Split,
@@ -483,13 +582,196 @@ func (e *c15DirEnc) encode(it *c15Item) []byte {
 // c15Encode turns items (already in emission order) into wire units; the HPACK
 // dynamic table of each direction evolves in exactly this order.
 func c15Encode(items []c15Item) []c15Unit {
-	encs := [2]*c15DirEnc{c15NewDirEnc(), c15NewDirEnc()}
+	units, _ := c15EncodeTab(items, c15Tab{})
+	return units
+}
+
+// c15TabStats: what the table-size schedules really produced in one script.
+type c15TabStats struct {
+	Updates      [2]int // per direction: header blocks that start with a dynamic-table-size update
+	UpdatesAbove [2]int // ... to more than 4096 bytes
+	UpdateSplit  [2]int // ... with the update instruction(s) continued in a CONTINUATION frame
+}
+
+// c15EncodeTab encodes items that c15ApplyTab has prepared for tab: each direction's
+// hpack.Encoder follows the table-size history of its schedule.
+func c15EncodeTab(items []c15Item, tab c15Tab) ([]c15Unit, c15TabStats) {
+	encs := [2]*c15DirEnc{c15NewDirEncSched(c15SchedByName(tab.Req)), c15NewDirEncSched(c15SchedByName(tab.Resp))}
 	units := make([]c15Unit, len(items))
 	for i := range items {
 		it := &items[i]
 		units[i] = c15Unit{Call: it.Call, Dir: it.Dir, Kind: it.Kind, Bytes: encs[it.Dir].encode(it)}
 	}
-	return units
+	var st c15TabStats
+	for d, e := range encs {
+		st.Updates[d], st.UpdatesAbove[d], st.UpdateSplit[d] = e.updates, e.updatesAbove, e.updateSplit
+	}
+	return units, st
+}
+
+// ---------------------------------------------------------------------------
+// HPACK dynamic-table-size history of a direction
+//
+// RFC 7541 sections 4.2 / 6.3, RFC 7540 section 6.5.2: the DEcoder of a direction advertises, in its
+// SETTINGS frame, the largest table it is willing to keep (4096 until it says otherwise); once the
+// encoder has acknowledged that, it may use any size up to it and announces every change with
+// "dynamic table size update" instruction(s) at the start of its next header block (the smallest
+// size reached since the last block, then the final one).  All of this is well-formed traffic:
+// it must not change the trace of any call.
+
+type c15TableOp struct {
+	Block int      // before the Block-th header block (0-based, emission order) of the direction ...
+	Sizes []uint32 // ... hpack.Encoder.SetMaxDynamicTableSize is called with these values, in order
+}
+
+type c15TableSched struct {
+	Name string
+	// value of SETTINGS_HEADER_TABLE_SIZE in the SETTINGS frame of the direction's receiver, -1 = the
+	// setting is absent (4096 applies)
+	Advertise int64
+	// -1: that SETTINGS frame is the one of the connection prologue; k >= 0: a further SETTINGS frame
+	// (and the acknowledgement) travels mid-connection, right before the k-th header block of the direction
+	LateSettings int
+	Ops          []c15TableOp
+}
+
+// c15Tab names the schedule of each direction ("" = none: no setting advertised, no update ever sent).
+type c15Tab struct {
+	Req  string `json:"req,omitempty"`
+	Resp string `json:"resp,omitempty"`
+}
+
+func (t c15Tab) none() bool { return t.Req == "" && t.Resp == "" }
+func (t c15Tab) String() string {
+	if t.none() {
+		return "none"
+	}
+	return "req=" + t.Req + ",resp=" + t.Resp
+}
+
+const c15K64 = 65536
+
+// c15TableScheds: simplest first.  Sizes: 0 (table off: everything evicted, nothing indexed any more),
+// 128 (room for two of the ~60-byte entries of the scripts: entries are evicted as new ones come),
+// 4095 / 4096 / 4097 (around the size an endpoint starts with), 16 KiB, 64 KiB, 2^32-1 (the largest
+// value the setting can carry).  Blocks: 0 (first block of the direction, table still empty),
+// 1 (table holds the entries of block 0, the block refers to them), 2.
+func c15TableScheds(thorough bool) []c15TableSched {
+	ops := func(o ...c15TableOp) []c15TableOp { return o }
+	at := func(block int, sizes ...uint32) c15TableOp { return c15TableOp{block, sizes} }
+	out := []c15TableSched{
+		{"grow64k@1", c15K64, -1, ops(at(1, c15K64))},                  // grow at the start of a later block
+		{"zero@1", -1, -1, ops(at(1, 0))},                              // shrink to 0 and stay there
+		{"zero-regrow@1", -1, -1, ops(at(1, 0, 4096))},                 // two instructions in one block: empty the table, back to 4096
+		{"small@1", -1, -1, ops(at(1, 128))},                           // shrink to small
+		{"zero@1-grow64k@2", c15K64, -1, ops(at(1, 0), at(2, c15K64))}, // shrink, then grow in the next block
+		{"grow64k@0", c15K64, -1, ops(at(0, c15K64))},                  // grow in the very first block
+		{"late-settings-grow64k@1", c15K64, 1, ops(at(1, c15K64))},     // the SETTINGS that allow it arrive mid-connection
+		{"growmax@1", 0xFFFFFFFF, -1, ops(at(1, 0xFFFFFFFF))},          // the largest size there is
+	}
+	if thorough {
+		out = append(out,
+			c15TableSched{"advertised64k-not-taken-up", c15K64, -1, nil},
+			c15TableSched{"advertised0", 0, -1, nil},     // the peer wants no table: the encoder announces 0 in block 0
+			c15TableSched{"advertised128", 128, -1, nil}, // ... a small one
+			c15TableSched{"late-settings0@1", 0, 1, nil}, // mid-connection SETTINGS take the table away
+			c15TableSched{"small@0", -1, -1, ops(at(0, 128))},
+			c15TableSched{"zero@0-regrow@2", -1, -1, ops(at(0, 0), at(2, 4096))},
+			c15TableSched{"zero@2", -1, -1, ops(at(2, 0))},
+			c15TableSched{"same4096@1", -1, -1, ops(at(1, 4096))}, // an update that changes nothing
+			c15TableSched{"shrink4095@1", -1, -1, ops(at(1, 4095))},
+			c15TableSched{"grow4097@1", 4097, -1, ops(at(1, 4097))}, // just above the initial size
+			c15TableSched{"grow16k@0-grow64k@2", c15K64, -1, ops(at(0, 16384), at(2, c15K64))},
+			c15TableSched{"grow64k@2", c15K64, -1, ops(at(2, c15K64))},
+			c15TableSched{"zero-regrow64k@1", c15K64, -1, ops(at(1, 0, c15K64))},
+			c15TableSched{"grow64k@1-zero@2", c15K64, -1, ops(at(1, c15K64), at(2, 0))},
+			c15TableSched{"grow64k@0-small@1-grow64k@2", c15K64, -1, ops(at(0, c15K64), at(1, 128), at(2, c15K64))},
+			c15TableSched{"late-settings-grow64k@2", c15K64, 2, ops(at(2, c15K64))},
+		)
+	}
+	return out
+}
+
+var c15SchedIndex map[string]*c15TableSched
+
+func c15SchedByName(name string) *c15TableSched {
+	if name == "" {
+		return nil
+	}
+	if c15SchedIndex == nil {
+		c15SchedIndex = map[string]*c15TableSched{}
+		for _, s := range c15TableScheds(true) {
+			s := s
+			c15SchedIndex[s.Name] = &s
+		}
+	}
+	s := c15SchedIndex[name]
+	if s == nil {
+		panic("c15: unknown table-size schedule " + name)
+	}
+	return s
+}
+
+// c15ApplyTab prepares a merged script (prologue + frames of the calls) for the table-size
+// schedules: the SETTINGS frame that governs a direction's encoder is the one sent in the OTHER
+// direction; it goes into the prologue, or (LateSettings = k) mid-connection: the SETTINGS frame as
+// late as possible before the k-th header block of the direction without interrupting a header block
+// of its own direction, the acknowledgement immediately before that block.
+func c15ApplyTab(items []c15Item, tab c15Tab) []c15Item {
+	if tab.none() {
+		return items
+	}
+	for d, name := range [2]string{tab.Req, tab.Resp} {
+		sc := c15SchedByName(name)
+		if sc == nil || sc.Advertise < 0 {
+			continue
+		}
+		if sc.LateSettings < 0 {
+			for i := range items {
+				if items[i].Call == -1 && items[i].Kind == 'S' && items[i].Dir == 1-d {
+					items[i].HasTab, items[i].TabSize = true, uint32(sc.Advertise)
+				}
+			}
+			continue
+		}
+		// position of the k-th header block of direction d
+		at, seen := -1, 0
+		for i := range items {
+			if items[i].Kind == 'H' && items[i].Dir == d {
+				if seen == sc.LateSettings {
+					at = i
+					break
+				}
+				seen++
+			}
+		}
+		if at < 0 {
+			continue // the direction has no such block in this script: nothing changes
+		}
+		// SETTINGS travel in direction 1-d: not inside a header block of that direction
+		j := at
+		for j > 0 {
+			prev := -1
+			for p := j - 1; p >= 0; p-- {
+				if items[p].Dir == 1-d {
+					prev = p
+					break
+				}
+			}
+			if prev < 0 || !((items[prev].Kind == 'H' && items[prev].Split) || (items[prev].Kind == 'C' && items[prev].More)) {
+				break
+			}
+			j = prev // an open block: go before the frame that leaves it open (and check again)
+		}
+		out := make([]c15Item, 0, len(items)+2)
+		out = append(out, items[:j]...)
+		out = append(out, c15Item{Call: -1, Dir: 1 - d, Kind: 'S', HasTab: true, TabSize: uint32(sc.Advertise)})
+		out = append(out, items[j:at]...)
+		out = append(out, c15Item{Call: -1, Dir: d, Kind: 'A'})
+		out = append(out, items[at:]...)
+		items = out
+	}
+	return items
 }
 
 func c15Prologue() []c15Item {
@@ -507,22 +789,22 @@ func c15Prologue() []c15Item {
 // call shapes and the reference model
 
 type c15Shape struct {
-	Named       bool   `json:"named"`
-	Cont        bool   `json:"cont,omitempty"`        // request HEADERS split: HEADERS + CONTINUATION
-	ContN       int    `json:"contn,omitempty"`       // with Cont: number of CONTINUATION frames (0 = 1): the block has ContN+1 fragments
-	NReq        int    `json:"nreq"`                  // request DATA frames carrying messages
-	ReqEnd      int    `json:"reqend,omitempty"`      // 0: END_STREAM on the last request frame, 1: on an extra empty DATA
-	MsgMode     int    `json:"msgmode,omitempty"`     // 0: one message per DATA; 1: first message spread over two DATA frames; 2: all messages in one DATA frame
-	Resp        int    `json:"resp,omitempty"`        // 0: HEADERS, DATA*, trailers; 1: trailers-only
-	NResp       int    `json:"nresp"`                 // response DATA frames
-	RespCont    bool   `json:"respcont,omitempty"`    // trailers (or the trailers-only HEADERS) split with CONTINUATION
-	RespContN   int    `json:"respcontn,omitempty"`   // with RespCont: number of CONTINUATION frames (0 = 1)
-	RespHdrCont int    `json:"resphdrcont,omitempty"` // number of CONTINUATION frames after the (non-final) response HEADERS
-	Bidi        bool   `json:"bidi,omitempty"`        // response HEADERS sent right after the request HEADERS
-	ReqPieces   int    `json:"reqpieces,omitempty"`   // >= 3: the first request message is spread over that many DATA frames (overrides MsgMode)
-	RespPieces  int    `json:"resppieces,omitempty"`  // >= 3: the first response message is spread over that many DATA frames
-	Glue        bool   `json:"glue,omitempty"`        // with ReqPieces / RespPieces: the second message starts in the DATA frame that carries the last piece of the first
-	LateData    bool   `json:"latedata,omitempty"`    // late variants: a response DATA frame (one more message) is among the late frames
+	Named       bool `json:"named"`
+	Cont        bool `json:"cont,omitempty"`        // request HEADERS split: HEADERS + CONTINUATION
+	ContN       int  `json:"contn,omitempty"`       // with Cont: number of CONTINUATION frames (0 = 1): the block has ContN+1 fragments
+	NReq        int  `json:"nreq"`                  // request DATA frames carrying messages
+	ReqEnd      int  `json:"reqend,omitempty"`      // 0: END_STREAM on the last request frame, 1: on an extra empty DATA
+	MsgMode     int  `json:"msgmode,omitempty"`     // 0: one message per DATA; 1: first message spread over two DATA frames; 2: all messages in one DATA frame
+	Resp        int  `json:"resp,omitempty"`        // 0: HEADERS, DATA*, trailers; 1: trailers-only
+	NResp       int  `json:"nresp"`                 // response DATA frames
+	RespCont    bool `json:"respcont,omitempty"`    // trailers (or the trailers-only HEADERS) split with CONTINUATION
+	RespContN   int  `json:"respcontn,omitempty"`   // with RespCont: number of CONTINUATION frames (0 = 1)
+	RespHdrCont int  `json:"resphdrcont,omitempty"` // number of CONTINUATION frames after the (non-final) response HEADERS
+	Bidi        bool `json:"bidi,omitempty"`        // response HEADERS sent right after the request HEADERS
+	ReqPieces   int  `json:"reqpieces,omitempty"`   // >= 3: the first request message is spread over that many DATA frames (overrides MsgMode)
+	RespPieces  int  `json:"resppieces,omitempty"`  // >= 3: the first response message is spread over that many DATA frames
+	Glue        bool `json:"glue,omitempty"`        // with ReqPieces / RespPieces: the second message starts in the DATA frame that carries the last piece of the first
+	LateData    bool `json:"latedata,omitempty"`    // late variants: a response DATA frame (one more message) is among the late frames
 	// "", rstc-early, rstc-mid, rsts-early, rsts-mid, refused-retry, goaway, and the late variants: the
 	// server's frames were already in flight when the stream went away and arrive afterwards, each header
 	// block adding entries to the HPACK dynamic table of the response direction:
@@ -1138,8 +1420,14 @@ func c15HdrEqual(got map[string][]string, want map[string][]string) bool {
 		return false
 	}
 	for k, v := range want {
-		if !reflect.DeepEqual(got[k], v) {
+		g := got[k]
+		if len(g) != len(v) {
 			return false
+		}
+		for i := range v {
+			if g[i] != v[i] {
+				return false
+			}
 		}
 	}
 	return true
